@@ -502,7 +502,8 @@ func (m *machine) doUpdBind(op Op) error {
 		pr := b.pricing
 		if op.Pricing != nil {
 			pr = *op.Pricing
-			if !pr.wellFormed() || !m.rateOK(pr) {
+			if !pr.wellFormed() { // a missing exchange rate only matters for the deposit check of an available binding
+
 				want, why = false, "pricing"
 			}
 		}
